@@ -478,6 +478,16 @@ def build_unit(template, repo, out_path, contracts_dir=None, vacuity=False):
                 body = body[:h] + ".expect_unchecked(" + body[h + 8:]
             if hits:
                 local["R10"] = local.get("R10", 0) + len(hits)
+        if opts.get("le") == "model":
+            # R14 (opt-in, counted): `.to_le_bytes()` -> `.to_le_bytes_model()`, a prelude trait method with the
+            # same meaning for i64/u64/f64 (std's return type `[u8; size_of::<T>()]` cannot be named in an
+            # assume_specification of this Verus version)
+            m14 = mask(body)
+            hits = [h.start() for h in re.finditer(r"\.to_le_bytes\(\)", m14)]
+            for h in reversed(hits):
+                body = body[:h] + ".to_le_bytes_model()" + body[h + len(".to_le_bytes()"):]
+            if hits:
+                local["R14"] = local.get("R14", 0) + len(hits)
         if opts.get("r12"):
             # R12 (opt-in, counted): `T::default()` -> `T(0)` for a tuple struct `pub struct T(pub i64);`
             # that derives Default (the derive expands to exactly that); the definition is checked in the
